@@ -119,8 +119,11 @@ def run(ctx):
                     if ms:
                         live.append(("mark-list", ms))
                         m = gen.gen_mark(rng, schema)
-                        new_objs += [m.add_to_set(ms), m.remove_from_set(ms), Mark.set_from(list(reversed(ms))),
-                                     schema.top_node_type.allowed_marks(ms)]
+                        rev = list(reversed(ms))          # a caller-owned, possibly unsorted mark list
+                        live.append(("mark-list (unsorted)", rev))
+                        before.append(("mark-list (unsorted)", rev, snap(rev)))
+                        new_objs += [m.add_to_set(ms), m.remove_from_set(ms), Mark.set_from(rev),
+                                     schema.top_node_type.allowed_marks(ms), d.type.schema.text("x", rev) if rev else None]
                 elif kind == "step":
                     d = rng.choice(docs + [tr.doc])
                     st_ = gen.gen_step(rng, info, d, docs)
